@@ -435,3 +435,20 @@ func VH_C04_WriteReadWrite() {
 	vassert(vdeepequal(b1.Bytes(), b2.Bytes()), "C04 read-then-write yields the same bytes")
 	vreach("end")
 }
+
+// C04 H4: the timestamp the SSA writer emits, float64 steps encoded exactly (IEEE theory, cvc5): for every nanosecond
+// offset within a second the centisecond field is the truncated sub-second part (the relaxed-real encoding of
+// VH_C04_WriteReadWrite cannot tell a one-ulp slip from the right answer).
+func VH_C04_TimestampExact() {
+	vsolver("cvc5")
+	i := nondetInt64(0, 999999999)
+	s := formatDurationSSA(time.Duration(i))
+	vassert(len(s) == 11, "C04 exact: HH:MM:SS.cc")
+	if len(s) != 11 {
+		return
+	}
+	vassert(veqstr(s[:9], "00:00:00."), "C04 exact: whole-second fields")
+	cs := i / 10000000
+	vassert(s[9] == byte('0'+cs/10) && s[10] == byte('0'+cs%10), "C04 exact: centiseconds are the truncated sub-second part")
+	vreach("end")
+}
